@@ -1266,6 +1266,15 @@ fn layout_fpg_mirror(c: &Case, exp: &[Exp]) -> Result<(), String> {
     }
 }
 
+/// the walk fields of a case line (`chain <tech> exp:.. [win:..] <walk fields>`; corpus cases of earlier
+/// rounds have no `win:` field)
+fn walk_fields_of(case: &str) -> Option<&str> {
+    let third = case.split(' ').filter(|s| !s.is_empty()).nth(3).unwrap_or("");
+    let n = if third.starts_with("win:") { 5 } else { 4 };
+    let f: Vec<&str> = case.splitn(n, ' ').collect();
+    if f.len() == n { Some(f[n - 1]) } else { None }
+}
+
 /// the tie for the canonical STACK CFI generator (`gen_chain`, technique `cfi`): the generator's
 /// parameters are recovered from the case — `s0` from the stack pointer, per frame its size in words from
 /// the stack-pointer deltas of the chain, `saves` from the STACK CFI record covering the frame's lookup
@@ -1319,14 +1328,58 @@ fn layout_cfi_mirror(case: &str, c: &Case, exp: &[Exp]) -> Result<(), String> {
     }
     let nwords = bytes.len() as u64 / p;
     let tail = nwords.checked_sub(s).ok_or("stack ends inside the outermost frame")?;
-    let fields: Vec<&str> = case.splitn(5, ' ').collect();
-    if fields.len() != 5 || !fields[3].starts_with("win:") {
-        return Err("case line without a win: field".into());
-    }
-    let req = format!("chain layout cfi {base} {s0} {tail} {} {}", if frames.is_empty() { "-".to_string() } else { frames.join(",") }, fields[4]);
+    let walk_fields = walk_fields_of(case).ok_or("case line too short")?;
+    let req = format!("chain layout cfi {base} {s0} {tail} {} {}", if frames.is_empty() { "-".to_string() } else { frames.join(",") }, walk_fields);
     let want = format!(
         "hyp=1 one={} sp={sp} stack:{} exp:{}",
         if c.mods.len() == 1 { "1" } else { "-" },
+        hex(bytes),
+        exp.iter().map(|e| format!("{},{},{}", e.ret, e.sp, e.fp.map(|x| x.to_string()).unwrap_or("-".into()))).collect::<Vec<_>>().join("|")
+    );
+    match ask_model(&req) {
+        None => Ok(()),
+        Some(got) if got == want => Ok(()),
+        Some(got) => Err(format!("layout({}) = {} expected {}", &req[..req.len().min(200)], &got[..got.len().min(300)], &want[..want.len().min(300)])),
+    }
+}
+
+/// the tie for the scan-only generator (`gen_chain`, technique `scan`): the generator's parameters are
+/// recovered from the case — `s0` from the stack pointer, per frame its junk words (the stack words between
+/// the callee's stack pointer and the return-address slot) and return address, `tail` from the length of the
+/// stack — and the model evaluates `gscanWords` / `gscanChain` on them (MdModel/Walk/LayoutGenScan.lean)
+/// together with EVERY hypothesis of `walk_layout_scan_generated` / `walk_layout_scan_generated32` (`hyp=1`):
+/// stack pointer, stack bytes and chain must be the generated ones
+fn layout_scan_mirror(case: &str, c: &Case, exp: &[Exp]) -> Result<(), String> {
+    let p = ptr_of(&c.arch);
+    let (base, bytes) = c.stack.as_ref().ok_or("no stack")?;
+    let reg = |n: &str| c.regs.iter().find(|(k, _)| k == n).map(|x| x.1);
+    let sp = reg(sp_name(&c.arch)).ok_or("no sp")?;
+    let idx = |a: u64| -> Result<u64, String> {
+        let off = a.checked_sub(*base).ok_or(format!("address {a} below the stack"))?;
+        if off % p != 0 {
+            return Err(format!("address {a} is not word-aligned"));
+        }
+        Ok(off / p)
+    };
+    let nwords = bytes.len() as u64 / p;
+    let word = |i: u64| -> u64 { (0..p).fold(0u64, |v, k| v | (bytes[(i * p + k) as usize] as u64) << (8 * k)) };
+    let s0 = idx(sp)?;
+    let mut s = s0;
+    let mut frames = vec![];
+    for e in exp {
+        let esp = idx(e.sp)?;
+        if esp <= s || esp > nwords {
+            return Err(format!("stack pointer word {esp} after the callee's {s} in a stack of {nwords} words"));
+        }
+        let junk: Vec<String> = (s..esp - 1).map(|i| word(i).to_string()).collect();
+        frames.push(format!("{}:{}", if junk.is_empty() { "-".to_string() } else { junk.join(".") }, e.ret));
+        s = esp;
+    }
+    let tail = nwords.checked_sub(s).ok_or("stack ends inside the outermost frame")?;
+    let walk_fields = walk_fields_of(case).ok_or("case line too short")?;
+    let req = format!("chain layout scan {base} {s0} {tail} {} {}", if frames.is_empty() { "-".to_string() } else { frames.join(",") }, walk_fields);
+    let want = format!(
+        "hyp=1 sp={sp} stack:{} exp:{}",
         hex(bytes),
         exp.iter().map(|e| format!("{},{},{}", e.ret, e.sp, e.fp.map(|x| x.to_string()).unwrap_or("-".into()))).collect::<Vec<_>>().join("|")
     );
@@ -1511,6 +1564,14 @@ impl Engine for Chain {
                         res.tags.push("cfi-side-from-records".into());
                     }
                 }
+                Err(msg) => res.oracle.push(("layout-not-mirrored".into(), msg)),
+            }
+        }
+        // scan-only chains (every architecture; MIPS32 with its four skipped words): `gscanWords` / `gscanChain`,
+        // `preScan_layout` / `walk_layout_scan_generated[32]` (C04Gen.lean), all hypotheses evaluated by the model
+        if tech == "scan" {
+            match layout_scan_mirror(case, &c, &exp) {
+                Ok(()) => res.tags.push(format!("layout-tied:scan-{}", c.arch)),
                 Err(msg) => res.oracle.push(("layout-not-mirrored".into(), msg)),
             }
         }
